@@ -25,14 +25,42 @@ fn family(name: &str, n: usize) -> String {
         "arrows" => format!("{}type", rep("type -> ", n)),
         "group-annotations" => format!("{}x0", (0..n).map(|i| format!("x{i} : (int -> int) = (y : int) => y; ")).collect::<String>()),
         "token-soup" => (0..n).map(|i| ["(", "x", ":", "=>", ")", "+", "if", "=", ";", "{", "->", "}"][i * 7 % 12]).collect::<Vec<_>>().join(" "),
+        "quotient-chain" => format!("1{}", rep(" / 1", n)),
+        "difference-chain" => format!("1{}", rep(" - 1", n)),
+        "grouped-operand-chain" => format!("1{}", (0..n).map(|i| if i % 2 == 0 { " - (1)" } else { " / (2)" }).collect::<String>()),
+        "application-grouped-chain" => format!("f{}", rep(" (x)", n)),
+        "braces-missing-domain" => format!("{}{}", rep("{x : ", n), rep("}", n)),
+        "parens-missing-domain" => format!("{}{}", rep("(x : ", n), rep(")", n)),
+        "braces-nested-domains" => format!("{}type{} => x", (0..n).map(|i| format!("{{x{i} : ")).collect::<String>(), rep("}", n)),
+        "definitions-fibonacci" => {
+            // one non-value definition followed by functions that each mention two others
+            let mut s = String::from("r = f0 0; ");
+            for i in 0..n {
+                s += &format!("f{i} = (x : int) => f{} (f{} x); ", (i + 1) % n.max(1), (i + 2) % n.max(1));
+            }
+            s + "r"
+        }
+        "definitions-chain-forward" => {
+            let mut s = String::from("r = f0 0; ");
+            for i in 0..n {
+                s += &format!("f{i} = (x : int) => f{} x; ", (i + 1).min(n - 1));
+            }
+            s + "r"
+        }
+        "nested-groups" => format!("{}0{}", (0..n).map(|i| format!("(x{i} = ")).collect::<String>(), (0..n).rev().map(|i| format!("; x{i})")).collect::<String>()),
+        "implicit-lambdas" => format!("{}x0", (0..n).map(|i| format!("{{x{i}}} => ")).collect::<String>()),
+        "if-missing-else" => format!("{}1", rep("if true then ", n)),
+        "comparison-chain-ungrouped" => format!("1{}", rep(" < 1", n)),
         "open-braces" => format!("{}x", (0..n).map(|i| format!("{{x{i} : ")).collect::<String>()),
         o => panic!("unknown family {o}"),
     }
 }
 
-pub const FAMILIES: [&str; 20] = ["nested-parens", "nested-parens-truncated", "nested-parens-unbalanced", "nested-pi", "nested-lambda", "application-chain", "sum-chain",
+pub const FAMILIES: [&str; 33] = ["nested-parens", "nested-parens-truncated", "nested-parens-unbalanced", "nested-pi", "nested-lambda", "application-chain", "sum-chain",
     "product-chain", "mixed-chain", "comparison-nest", "definitions", "definitions-lines", "nested-if", "sequential-if", "nested-if-truncated", "negations", "arrows",
-    "group-annotations", "token-soup", "open-braces"];
+    "group-annotations", "token-soup", "open-braces", "quotient-chain", "difference-chain", "grouped-operand-chain", "application-grouped-chain",
+    "braces-missing-domain", "parens-missing-domain", "braces-nested-domains", "definitions-fibonacci", "definitions-chain-forward", "nested-groups", "implicit-lambdas",
+    "if-missing-else", "comparison-chain-ungrouped"];
 
 #[cfg(all(feature = "verif", have_hooks))]
 fn counters() -> (u64, u64) { (crate::verif_hooks::memo_entries(), crate::verif_hooks::memo_hits()) }
